@@ -536,17 +536,43 @@ def media_chain(ctx):
         outcomes = explore(run)
     except Inconclusive as e:
         raise AnalysisError(f'set_index: {e}')
+    import re as _re
+
+    def _off(key):
+        m = _re.search(r'surfaces\[(.*)\]\.material_(pre|post)$', key)
+        if not m:
+            return None
+        e = m.group(1).replace(' ', '').replace('1*', '')
+        if e == 'k':
+            return 0, m.group(2)
+        m2 = _re.fullmatch(r'(?:k\+(\d+)|(\d+)\+k)', e)
+        if m2:
+            return int(m2.group(1) or m2.group(2)), m.group(2)
+        return None
     for decisions, heap in outcomes:
-        post = heap.get('self.surface_group.surfaces[k].material_post')
-        pre_keys = [k for k in heap if k.endswith('.material_pre')]
-        ok = post is not None and rat_eq(post, A('NEWMAT')) and \
-            len(pre_keys) == 1 and rat_eq(heap[pre_keys[0]], A('NEWMAT')) and \
-            pre_keys[0] == 'self.surface_group.surfaces[k+1].material_pre'
+        # j = number of mirrors directly behind the gap (a mirror stays in the
+        # medium in front of it): post(k .. k+j) and pre(k+1 .. k+j+1) all
+        # become the one new medium, nothing else is written
+        media = {}
+        bad_key = False
+        for k_, v_ in heap.items():
+            if k_.endswith(('.material_post', '.material_pre')):
+                o = _off(k_)
+                if o is None or not rat_eq(v_, A('NEWMAT')):
+                    bad_key = True
+                else:
+                    media[o] = True
+        posts = sorted(o for o, w in media if w == 'post')
+        pres = sorted(o for o, w in media if w == 'pre')
+        j = len(posts) - 1
+        ok = not bad_key and j >= 0 and posts == list(range(0, j + 1)) and \
+            pres == list(range(1, j + 2))
         extra = [k for k in heap if not k.startswith('#') and
                  not k.endswith(('.material_post', '.material_pre'))]
         if ok and heap.get('#n') == 'value' and not extra:
-            res.ok(f'set_index (branches {decisions}): post(k) := m, '
-                   f'pre(k+1) := m, m = IdealMaterial(value)')
+            res.ok(f'set_index (branches {decisions}, {j} mirror(s) behind '
+                   f'the gap): post(k..k+{j}) := m, pre(k+1..k+{j + 1}) := m, '
+                   f'm = IdealMaterial(value)')
         else:
             res.fail(ctx.finding(
                 'MEDIA-CHAIN', f, f.node,
@@ -556,11 +582,34 @@ def media_chain(ctx):
                 'existing medium object may be shared with other surfaces, '
                 'so editing it in place changes more than the addressed gap',
                 construct='set_index pair'))
+    # a mirror stays in the medium in front of it (material_post is that same
+    # medium), so the edit has to run on through mirrors: some explored
+    # outcome must have carried the medium past a reflecting surface, and the
+    # loop must be controlled by the reflectivity of the surface reached
+    loops_ = [n for n in ast.walk(f.node) if isinstance(n, ast.While) and
+              'is_reflective' in unparse(n.test)]
+    carried = any(
+        sum(1 for k_ in heap if k_.endswith('.material_post')) >= 2
+        for _, heap in outcomes)
+    if loops_ and carried:
+        res.ok('set_index carries the new medium through mirrors behind the '
+               'gap (explored up to 2 mirrors)')
+    else:
+        res.fail(ctx.finding(
+            'MEDIA-CHAIN', f, f.node,
+            'set_index replaces material_post of surface k and material_pre '
+            'of surface k+1 only: when surface k+1 is a mirror its '
+            'material_post (the same medium) keeps the old material, so the '
+            'ray travels back through the old index (Mangin mirror: f2 '
+            '106.728 instead of 107.280, Lagrange invariant jumps by the '
+            'index ratio)', construct='set_index stops at a mirror'))
     allowed = {
         ('Surface', 'material_pre'): {'Surface.__init__', 'Optic.set_index',
-                                      'SurfaceGroup.inverted'},
+                                      'SurfaceGroup.inverted',
+                                      'SurfaceGroup.remove_surface'},
         ('Surface', 'material_post'): {'Surface.__init__', 'Optic.set_index',
-                                       'SurfaceGroup.inverted'},
+                                       'SurfaceGroup.inverted',
+                                       'SurfaceGroup.remove_surface'},
         ('Surface', 'is_stop'): {'Surface.__init__', 'SurfaceGroup.add_surface'},
         ('Wavelength', 'is_primary'): {'Wavelength.__init__',
                                        'WavelengthGroup.add_wavelength'},
@@ -1483,5 +1532,49 @@ def geometry_attr(ctx):
     return res
 
 
-RULES = [geometry_attr, append_default, insertion, derived_sync_rule, arg_wiring_rule, init_stores, scalar_conv, placement, thickness_edit, media_chain, one_stop,
+def remove_relink(ctx):
+    """material_post of surface k is material_pre of surface k+1 after every
+    edit: deleting a surface puts its successor behind its predecessor, so the
+    successor's material_pre has to become the predecessor's material_post"""
+    P = ctx.P
+    res = Result('REMOVE-RELINK', 'SurfaceGroup.remove_surface re-links the '
+                 'medium in front of the surface that followed')
+    f = P.func('SurfaceGroup.remove_surface')
+    res.saw(f)
+    dels = [i for i, st in enumerate(f.node.body) if isinstance(st, ast.Delete)
+            and 'self.surfaces[index]' in unparse(st)]
+    if not dels:
+        raise AnalysisError('remove_surface: del self.surfaces[index] not '
+                            'found')
+    after = f.node.body[dels[0] + 1:]
+    defs = {}
+    ok = False
+    for st in ast.walk(ast.Module(body=after, type_ignores=[])):
+        if isinstance(st, ast.Assign) and isinstance(st.targets[0], ast.Name):
+            defs[st.targets[0].id] = unparse(st.value)
+    for st in ast.walk(ast.Module(body=after, type_ignores=[])):
+        if isinstance(st, ast.Assign) and isinstance(
+                st.targets[0], ast.Attribute) and \
+                st.targets[0].attr == 'material_pre':
+            base = unparse(st.targets[0].value)
+            base = defs.get(base, base)
+            val = unparse(st.value).replace(' ', '')
+            if base == 'self.surfaces[index]' and val in (
+                    'self.surfaces[index-1].material_post',):
+                ok = True
+    if ok:
+        res.ok('after the deletion surfaces[index].material_pre := '
+               'surfaces[index-1].material_post')
+    else:
+        res.fail(ctx.finding(
+            'REMOVE-RELINK', f, f.node.body[dels[0]],
+            'remove_surface only deletes the list entry: the surface that '
+            'followed keeps the medium of the deleted surface as its '
+            'material_pre, so the traced lens is not the prescription the '
+            'tables report (f2 66.73 instead of 81.36; Lagrange invariant '
+            'not constant)', construct='successor medium not re-linked'))
+    return res
+
+
+RULES = [remove_relink, geometry_attr, append_default, insertion, derived_sync_rule, arg_wiring_rule, init_stores, scalar_conv, placement, thickness_edit, media_chain, one_stop,
          setter_writes, pickup, solve]
